@@ -41,6 +41,7 @@ PROGRAMS = {
     "swallow": "while True:\n    try:\n        _mark()\n        while True:\n            x = 1\n    except BaseException:\n        pass\n",
     "swallowprint": ("i = 0\nwhile True:\n    try:\n        _mark()\n        while True:\n            i += 1\n"
                      "            if i % 5000 == 0:\n                print('e1')\n    except BaseException:\n        pass\n"),
+    "swallowassign": "while True:\n    try:\n        _mark()\n        while True:\n            x = 2\n    except BaseException:\n        pass\n",
     "lock": "import threading\nl = threading.Lock()\nl.acquire()\n_mark()\nl.acquire()\n",
     "swallow_finish": "print('e1')\ntry:\n    _mark()\n    while True:\n        x = 1\nexcept BaseException:\n    pass\ny = 2\n",
     "swallow_raise": "print('e1')\ntry:\n    _mark()\n    while True:\n        x = 1\nexcept BaseException:\n    pass\nraise ValueError('late')\n",
@@ -222,7 +223,7 @@ def main():
     def settle_student():
         t = st["thread"]
         release_t.set()
-        if t is not None and program not in ("swallow", "swallowprint", "lock"):
+        if t is not None and program not in ("swallow", "swallowprint", "swallowassign", "lock"):
             join_student(t, "student thread did not end after it was released")
 
     obs = {"scenario": sc, "have_hooks": have_hooks}
